@@ -57,6 +57,9 @@ def plan(tier: str, seed: int) -> list[dict]:
         cases.append({"k": "hdd", "i": 9000 + j, "big": True, "weight": 12})
     for i in range(16 if tier == "quick" else 300):
         cases.append({"k": "vmdk-delta-multi", "i": i})
+    for i in range(4 if tier == "quick" else 40):
+        # descriptor files far larger than the usual few hundred bytes (a thousand and more extents, or long annotations)
+        cases.append({"k": "vmdk", "i": 50000 + i, "long": ["many", "notes"][i % 2], "weight": 6})
     return cases
 
 
@@ -127,10 +130,19 @@ def run(case: dict, ctx) -> dict:
 
         n = rng.choice([1, 2, 2, 3, 4, 5, 8])
         base = rng.choice(NAMES)
+        long_mode = case.get("long")
+        if long_mode == "many":
+            n = rng.randrange(900, 1500)
+            base = "disk with a fairly long base name so that every extent line takes its share of the descriptor"
         lines, parts, files, kinds, caps = [], [], [], [], []
         for j in range(n):
             kind = rng.choice(["FLAT", "VMFS", "SPARSE", "VMFSSPARSE", "SESPARSE", "SESPARSE"])
-            sf, layer, cap = _extent(rng, kind, rng.getrandbits(48))
+            if long_mode == "many":
+                kind = "FLAT"
+                sf, layer, meta_ = w.build_flat(rng, nsectors=rng.choice([1, 1, 2, 3]), tag=rng.getrandbits(48))
+                cap = meta_["size"] // SECTOR
+            else:
+                sf, layer, cap = _extent(rng, kind, rng.getrandbits(48))
             suffix = {"FLAT": f"-f{j + 1:03d}", "VMFS": "-flat", "SPARSE": f"-s{j + 1:03d}", "VMFSSPARSE": "-delta", "SESPARSE": "-sesparse"}[kind]
             fn = f"{base}{suffix}{j if kind in ('VMFS', 'VMFSSPARSE', 'SESPARSE') else ''}.vmdk"
             sf.write_to(d / fn)
@@ -146,12 +158,13 @@ def run(case: dict, ctx) -> dict:
             files.append(fn)
             kinds.append(kind)
             caps.append(cap)
-        text = w.descriptor_text(lines, crlf=rng.random() < 0.3, comments=rng.random() < 0.8, spacing=rng.choice(["", " "]),
+        notes = {f"vf.annotation{q}": "x" * 190 for q in range(400)} if long_mode == "notes" else None
+        text = w.descriptor_text(lines, crlf=rng.random() < 0.3, comments=rng.random() < 0.8, spacing=rng.choice(["", " "]), extra=notes,
                                  create_type=rng.choice(["twoGbMaxExtentSparse", "vmfs", "seSparse", "monolithicFlat"]))
         dpath = d / f"{base}.vmdk"
         dpath.write_text(text, encoding="utf-8", newline="")
         model = ConcatModel(parts)
-        path_mode = rng.choice(["path", "str", "fh", "list"])
+        path_mode = rng.choice(["path", "str", "fh", "list"] if long_mode != "many" else ["path", "str", "fh"])
         handles = []
         if path_mode == "path":
             o = call(VMDK, dpath)
@@ -190,6 +203,8 @@ def run(case: dict, ctx) -> dict:
                 for c in caps:
                     acc += c * SECTOR
                     bounds.append(acc)
+                if len(bounds) > 60:
+                    bounds = sorted(rng.sample(bounds[:-1], 59)) + bounds[-1:]
                 reqs, _ = gen_requests(rng, model.size, [8192], n_random=30 if quick else 100, max_len=1 << 20, pair_cap=120, extra=bounds)
                 for b in bounds:
                     for _ in range(3):
@@ -218,6 +233,7 @@ def run(case: dict, ctx) -> dict:
             for h in handles:
                 h.close()
         cnt["vmdk_cases"] = 1
+        cnt["descriptor_files_over_64KiB"] = int(len(text) > 65536)
         cnt["sesparse_extents"] = kinds.count("SESPARSE")
         cnt["cowd_extents"] = kinds.count("VMFSSPARSE")
         cnt["special_name_cases"] = int(base != "disk")
@@ -240,7 +256,7 @@ def run(case: dict, ctx) -> dict:
     start = 0
     kinds = []
     same_names = rng.random() < 0.3
-    oversized = 0
+    oversized = absolute = 0
     big_at = rng.randrange(0, 2) if case.get("big") else -1
     for j in range(nst):
         if j == big_at:
@@ -273,6 +289,22 @@ def run(case: dict, ctx) -> dict:
         if same_names:
             # images of the same base name in per-storage sub-directories of the bundle
             fn = f"part{j}/data.hds"
+        if j != big_at and not same_names and rng.random() < 0.2:
+            # the storage's image is kept outside the bundle and named by an absolute path that exists; a stale file of
+            # the same name inside the bundle is not the image
+            pool = d / f"image pool {j}"
+            pool.mkdir()
+            sf.write_to(pool / fn)
+            if typ == "Plain":
+                sf, _, _ = w.build_flat(rng, nsectors=meta["size"] // SECTOR, tag=rng.getrandbits(48))
+            else:
+                sf, _, _ = whds.build_hds(rng, version=2, m_sectors=ms, nclusters=ncl, placement="shuffle", tag=rng.getrandbits(48))
+            absolute += 1
+            files[fn] = sf
+            kinds.append(typ)
+            storages.append({"start": start, "end": start + nsec, "images": [{"guid": g, "type": typ, "file": str(pool / fn)}]})
+            start += nsec
+            continue
         files[fn] = sf
         kinds.append(typ)
         storages.append({"start": start, "end": start + nsec, "images": [{"guid": g, "type": typ, "file": fn}]})
@@ -301,6 +333,7 @@ def run(case: dict, ctx) -> dict:
     cnt["hdd_cases"] = 1
     cnt["hdd_same_base_name_in_subdirs"] = int(same_names)
     cnt["hdd_images_larger_than_their_storage"] = oversized
+    cnt["hdd_images_at_existing_absolute_paths"] = absolute
     cnt["hdd_storages_of_2TiB_or_more"] = int(big_at >= 0)
     res["sets"]["storage_kind_sequences"] = ["+".join(kinds)]
     res["nontrivial"] = True
